@@ -48,6 +48,33 @@ class Holder(nn.Module):
     return self.inner()
 
 
+class Pair(nn.Module):
+  """Two attribute submodules; used with one Leaf shared at two depths: Pair(a=shared, b=Holder(inner=shared))."""
+  a: nn.Module
+  b: nn.Module
+
+  def __call__(self):
+    return jnp.stack([self.a(), self.b()])
+
+
+class PairTop(nn.Module):
+  pattern: str = 'two-depths'
+
+  def setup(self):
+    shared = Leaf()
+    if self.pattern == 'two-depths':
+      self.mid = Pair(a=shared, b=Holder(inner=shared))
+    elif self.pattern == 'same-depth':
+      self.mid = Pair(a=shared, b=shared)
+    elif self.pattern == 'reversed':
+      self.mid = Pair(a=Holder(inner=shared), b=shared)
+    else:
+      self.mid = Pair(a=Leaf(), b=Holder(inner=Leaf()))
+
+  def __call__(self):
+    return self.mid()
+
+
 def _wrapper(w):
   def setup(self):
     setattr(self, w, Leaf())
